@@ -28,9 +28,35 @@ def gen_unregrace(rng):
     return lines
 
 
+def gen_deep(rng):
+    """three to five actions on one signal, one that is neither the last nor the only one is removed (or two
+    are, in either order), then deliveries: what is left must run in registration order, and every id must stay
+    removable - whatever the container of the actions does to its other entries on a removal"""
+    sg = rng.choice(SIGS)
+    n = rng.randint(3, 5)
+    tags = list(range(100, 100 + n))
+    lines = ["setup reg %d %d" % (sg, t) for t in tags]
+    victims = rng.sample(tags[:-1], rng.randint(1, min(2, n - 1)))
+    lines += ["t0 unreg @%d" % v for v in victims]
+    if rng.random() < 0.5:
+        lines.append("t0 unreg @%d" % rng.choice([t for t in tags if t not in victims]))
+    if rng.random() < 0.5:
+        lines.append("t0 reg %d %d" % (sg, 100 + n))
+    lines.append("t1 deliver %d" % sg)
+    lines.append("t1 deliver %d" % sg)
+    if rng.random() < 0.5:
+        lines.append("t2 nested t0 deliver %d" % sg)
+        lines.append("delay t2 %d" % rng.randint(1, 40))
+    lines.append("seed %d" % rng.randint(1, 2**31))
+    lines.append("maxsteps 4000")
+    return lines
+
+
 def gen_scenario(rng, profile="mixed"):
     if profile == "unregrace":
         return gen_unregrace(rng)
+    if profile == "mixed" and rng.random() < 0.1:
+        return gen_deep(rng)
     lines = []
     sigs = rng.sample(SIGS, rng.randint(1, 3))
     tag = 100
